@@ -531,8 +531,11 @@ def self_validate(prop, mod, base_ctx, jobs, seed):
         try:
             vctx, _ = run_property(prop, "quick", over, base_ctx.repo)
             new = [f.key() for f in vctx.findings if f.key() not in base_keys]
-            if len(vctx.obligations) != len(base_ctx.obligations) and not vname.startswith("auto-unused-local"):
-                new.append(f"obligation count changed {len(base_ctx.obligations)} -> {len(vctx.obligations)}")
+            # (the R0 rules run once per file that was loaded; the thorough tier loads files the quick tier of the variant does not)
+            n_v = sum(1 for o in vctx.obligations if not o["rule"].startswith("R0."))
+            n_b = sum(1 for o in base_ctx.obligations if not o["rule"].startswith("R0."))
+            if n_v != n_b and not vname.startswith("auto-unused-local"):
+                new.append(f"obligation count changed {n_b} -> {n_v}")
         except AnalysisError as e:
             new = ["ANALYSIS-ERROR " + str(e)]
         if new:
